@@ -29,7 +29,7 @@ PROPS = {
     'C03': {'quick': ['A', 'B'], 'thorough': ALLCFG, 'level': 'proof', 'e2': True, 'roots': 'all'},
     'C04': {'quick': ['A', 'B'], 'thorough': ALLCFG, 'level': 'proof', 'e2': True, 'roots': 'all'},
     # (C05 also on the serde build: deserialisation is one more way to construct a container)
-    'C05': {'quick': ['A', 'B', 'D'], 'thorough': ALLCFG, 'level': 'proof', 'e2': True, 'roots': 'all'},
+    'C05': {'quick': ['A', 'B', 'D'], 'thorough': ALLCFG + ['D'], 'level': 'proof', 'e2': True, 'roots': 'all'},
     'C17': {'quick': ['A', 'B'], 'thorough': ALLCFG, 'level': 'proof', 'e2': True, 'roots': 'all'},
     'C06': {'quick': ['A', 'B', 'C', 'D'], 'thorough': ['A', 'B', 'C', 'D', 'E'], 'level': 'proof', 'e2': False},
     # behavioural properties: outcome schemas on the anchor roots of the property
